@@ -16,6 +16,9 @@ VARIANTS = [
       "float(pointa[1] - center[1]), float(pointa[0] - center[0])", "float(pointa[1]), float(pointa[0])", ["R12.2"]),
     M("lines-cross-of-positions", "curve.Intersection.lines", "param0 = diff0.cross(vector1) / denom",
       "param0 = ptb0.cross(vector1) / denom", ["R12.2"]),
+    M("isclose-absolute-tolerance", "curve.Intersection.lines", "if denom != 0:", "if not math.isclose(denom, 0, abs_tol=1e-12):", ["R12.1"]),
+    T("isclose-relative-only", "shape.SimpleShape.__contains_simple", "if areaA > areaB or jordana not in self:",
+      "if (areaA > areaB and (not math.isclose(areaA, areaB, rel_tol=1e-12))) or jordana not in self:"),
     T("param-tolerance-value", "jordancurve.JordanCurve.split", "if abs(node) < 1e-06 or abs(node - 1) < 1e-06:",
       "if abs(node) < 1e-07 or abs(1 - node) < 1e-07:"),
     T("parallel-test-spelling", "curve.Intersection.lines", "if denom != 0:", "if not denom == 0:"),
